@@ -86,6 +86,15 @@ func VerifC02_Dlarfg() {
 func VerifC02_QRFamily() {
 	routine := verifChoose("routine", 0, 6) // 0 Dgeqr2 1 Dgeqrf 2 Dgelq2 3 Dgelqf 4 Dgerq2 5 Dgerqf 6 Dgeql2
 	big := verifParam("qrbig", 3)
+	// lwork of the blocked drivers: the documented minimum (qrlw=0) or
+	// minimum / minimum+1 / generous (qrlw=1); the independence of lwork is the
+	// subject of VerifC02_LworkIndepF.
+	lw := func(min int) int {
+		if verifParam("qrlw", 0) == 0 {
+			return min
+		}
+		return verifC02lworkChoice("lwork", min)
+	}
 	var m, n int
 	colRefl := routine <= 1 || routine == 6 // reflectors act on columns: their order is bounded by m
 	if colRefl {
@@ -115,21 +124,21 @@ func VerifC02_QRFamily() {
 		impl.Dgeqr2(m, n, a, lda, tau, verifFloats("work", n))
 	case 1:
 		who, kind, nq, ascending = "Dgeqrf", 0, m, true
-		lwork := verifC02lworkChoice("lwork", verifC02max(1, n))
+		lwork := lw(verifC02max(1, n))
 		impl.Dgeqrf(m, n, a, lda, tau, verifFloats("work", lwork), lwork)
 	case 2:
 		who, kind, nq, ascending = "Dgelq2", 1, n, false
 		impl.Dgelq2(m, n, a, lda, tau, verifFloats("work", m))
 	case 3:
 		who, kind, nq, ascending = "Dgelqf", 1, n, false
-		lwork := verifC02lworkChoice("lwork", verifC02max(1, m))
+		lwork := lw(verifC02max(1, m))
 		impl.Dgelqf(m, n, a, lda, tau, verifFloats("work", lwork), lwork)
 	case 4:
 		who, kind, nq, ascending = "Dgerq2", 3, n, true
 		impl.Dgerq2(m, n, a, lda, tau, verifFloats("work", m))
 	case 5:
 		who, kind, nq, ascending = "Dgerqf", 3, n, true
-		lwork := verifC02lworkChoice("lwork", verifC02max(1, m))
+		lwork := lw(verifC02max(1, m))
 		impl.Dgerqf(m, n, a, lda, tau, verifFloats("work", lwork), lwork)
 	case 6:
 		who, kind, nq, ascending = "Dgeql2", 2, m, false
